@@ -172,6 +172,37 @@ def _negated(test: ast.expr) -> ast.expr:
     return ast.copy_location(ast.UnaryOp(op=ast.Not(), operand=test), test)
 
 
+def unroll_literal_loops(tree: ast.AST) -> int:
+    """`for x in (E1, E2, ...): body`  ->  `x = E1; body; x = E2; body; ...` for a literal tuple/list of at most four elements whose body has no
+    break/continue/return and no else clause: the loop form and the written-out form of "do this for each of these few things" are one shape."""
+    import copy
+
+    n_un = 0
+    for node in ast.walk(tree):
+        for fld in ("body", "orelse", "finalbody"):
+            seq = getattr(node, fld, None)
+            if not (isinstance(seq, list) and seq and all(isinstance(x, ast.stmt) for x in seq)):
+                continue
+            out: list[ast.stmt] = []
+            changed = False
+            for st in seq:
+                if (isinstance(st, ast.For) and isinstance(st.iter, (ast.Tuple, ast.List)) and 1 <= len(st.iter.elts) <= 4 and not st.orelse and isinstance(st.target, ast.Name)
+                        and not any(isinstance(x, (ast.Break, ast.Continue, ast.Return, ast.Starred)) for b in st.body for x in ast.walk(b))
+                        and not any(isinstance(e, ast.Starred) for e in st.iter.elts)):
+                    for e in st.iter.elts:
+                        asg = ast.Assign(targets=[ast.Name(id=st.target.id, ctx=ast.Store())], value=copy.deepcopy(e), lineno=st.lineno, col_offset=st.col_offset)
+                        out.append(ast.copy_location(asg, st))
+                        out.extend(copy.deepcopy(st.body))
+                    changed = True
+                    n_un += 1
+                else:
+                    out.append(st)
+            if changed:
+                ast.fix_missing_locations(ast.Module(body=out, type_ignores=[]))
+                setattr(node, fld, out)
+    return n_un
+
+
 def normalise_branches(tree: ast.AST) -> int:
     """Second part of the source normal form (orientation of branches):
       * `if <negative test>: A else: B` (B not an elif) becomes `if <positive test>: B else: A`;
@@ -305,6 +336,7 @@ class Repo:
             except SyntaxError as e:
                 raise AnalysisError(f"cannot parse {rel}: {e}") from e
             if os.environ.get("FV_NO_DETEMP") != "1":
+                unroll_literal_loops(tree)
                 inline_single_use_temporaries(tree)
                 normalise_branches(tree)
             m = Module(name=name, path=p, rel=rel, src=src, tree=tree)
